@@ -13,17 +13,52 @@ use std::{
 use rawdb::Database;
 use vecdb::{
     AnyStoredVec, AnyVec, BytesVec, DeltaChange, DeltaSub, ImportableVec, LazyAggVec, LazyDeltaVec, LazyVecFrom1, LazyVecFrom2, LazyVecFrom3,
-    ReadableCloneableVec, ReadableVec, Version, WritableVec,
+    PrintableIndex, ReadableCloneableVec, ReadableVec, Version, WritableVec,
 };
 
 use crate::common::*;
 
-type Src = BytesVec<usize, u64>;
+/// a second index type: a source keyed by it does NOT govern the length of a lazy vector keyed by `usize`
+#[derive(Debug, Default, Clone, Copy, PartialEq, Eq, PartialOrd, Ord)]
+pub struct Day(usize);
+impl From<usize> for Day { fn from(v: usize) -> Self { Day(v) } }
+impl From<Day> for usize { fn from(v: Day) -> Self { v.0 } }
+impl std::ops::Add<usize> for Day { type Output = Day; fn add(self, rhs: usize) -> Day { Day(self.0 + rhs) } }
+impl PrintableIndex for Day {
+    fn to_string() -> &'static str { "day" }
+    fn to_possible_strings() -> &'static [&'static str] { &["day"] }
+}
+
+enum Src {
+    U(BytesVec<usize, u64>),
+    D(BytesVec<Day, u64>),
+}
+impl Src {
+    fn rewrite(&mut self, keep: usize, tail: &[u64]) {
+        match self {
+            Src::U(s) => { s.truncate_if_needed_at(keep).unwrap(); for x in tail { s.push(*x); } s.write().unwrap(); }
+            Src::D(s) => { s.truncate_if_needed_at(keep).unwrap(); for x in tail { s.push(*x); } s.write().unwrap(); }
+        }
+    }
+    fn u(&self) -> &BytesVec<usize, u64> { match self { Src::U(s) => s, _ => panic!("own-typed source expected") } }
+    fn d(&self) -> &BytesVec<Day, u64> { match self { Src::D(s) => s, _ => panic!("foreign-typed source expected") } }
+}
+
+/// which sources of a mixed-index kind are keyed by the foreign index type
+fn foreign_of(kind: &str) -> &'static [usize] {
+    match kind { "from2m" => &[1], "from3a" => &[1], "from3b" => &[2], "from3c" => &[0], _ => &[] }
+}
+fn nsrc_of(kind: &str) -> usize { match kind { "from2" | "from2m" => 2, "from3" | "from3a" | "from3b" | "from3c" => 3, _ => 1 } }
 
 enum Lz {
     F1(LazyVecFrom1<usize, u64, usize, u64>),
     F2(LazyVecFrom2<usize, u64, usize, u64, usize, u64>),
     F3(LazyVecFrom3<usize, u64, usize, u64, usize, u64, usize, u64>),
+    /// mixed index types: only the sources keyed by `usize` govern the length
+    F2m(LazyVecFrom2<usize, u64, usize, u64, Day, u64>),
+    F3a(LazyVecFrom3<usize, u64, usize, u64, Day, u64, usize, u64>),
+    F3b(LazyVecFrom3<usize, u64, usize, u64, usize, u64, Day, u64>),
+    F3c(LazyVecFrom3<usize, u64, Day, u64, usize, u64, usize, u64>),
     Delta(LazyDeltaVec<usize, u64, u64, DeltaSub>),
     /// change since the window start: lookback = the start index itself; u32 source, f64 output (exact on small integers)
     Chg(LazyDeltaVec<usize, u32, f64, DeltaChange>),
@@ -48,18 +83,26 @@ impl Case {
     fn new(tmp: &std::path::Path, kind: &str) -> Self {
         let dir = tempfile::tempdir_in(tmp).unwrap();
         let db = Database::open(dir.path()).unwrap();
-        let n = match kind { "from2" => 2, "from3" => 3, _ => 1 };
-        let src: Vec<Src> = (0..n).map(|k| Src::forced_import(&db, &format!("s{k}"), Version::ONE).unwrap()).collect();
+        let n = nsrc_of(kind);
+        let src: Vec<Src> = (0..n).map(|k| if foreign_of(kind).contains(&k) {
+            Src::D(BytesVec::forced_import(&db, &format!("s{k}"), Version::ONE).unwrap())
+        } else {
+            Src::U(BytesVec::forced_import(&db, &format!("s{k}"), Version::ONE).unwrap())
+        }).collect();
         let mapping: Arc<RwLock<Arc<[usize]>>> = Arc::new(RwLock::new(Arc::from(Vec::<usize>::new())));
         let m2 = mapping.clone();
         let src32: Option<BytesVec<usize, u32>> = if kind == "chg" { Some(BytesVec::forced_import(&db, "s32", Version::ONE).unwrap()) } else { None };
         let lz = match kind {
             "chg" => Lz::Chg(LazyDeltaVec::new("l", Version::ONE, src32.as_ref().unwrap().read_only_boxed_clone(), Version::ONE, move || m2.read().unwrap().clone())),
-            "from2" => Lz::F2(LazyVecFrom2::init("l", Version::ONE, src[0].read_only_boxed_clone(), src[1].read_only_boxed_clone(), |i, a, b| a + 3 * b + i as u64)),
-            "from3" => Lz::F3(LazyVecFrom3::init("l", Version::ONE, src[0].read_only_boxed_clone(), src[1].read_only_boxed_clone(), src[2].read_only_boxed_clone(), |i, a, b, c| a + 3 * b + 5 * c + i as u64)),
-            "delta" => Lz::Delta(LazyDeltaVec::new("l", Version::ONE, src[0].read_only_boxed_clone(), Version::ONE, move || m2.read().unwrap().clone())),
-            "agg" => Lz::Agg(LazyAggVec::new("l", Version::ONE, Version::ONE, src[0].read_only_boxed_clone(), move || m2.read().unwrap().clone())),
-            _ => Lz::F1(LazyVecFrom1::init("l", Version::ONE, src[0].read_only_boxed_clone(), |i, a| a * 2 + i as u64)),
+            "from2" => Lz::F2(LazyVecFrom2::init("l", Version::ONE, src[0].u().read_only_boxed_clone(), src[1].u().read_only_boxed_clone(), |i, a, b| a + 3 * b + i as u64)),
+            "from3" => Lz::F3(LazyVecFrom3::init("l", Version::ONE, src[0].u().read_only_boxed_clone(), src[1].u().read_only_boxed_clone(), src[2].u().read_only_boxed_clone(), |i, a, b, c| a + 3 * b + 5 * c + i as u64)),
+            "from2m" => Lz::F2m(LazyVecFrom2::init("l", Version::ONE, src[0].u().read_only_boxed_clone(), src[1].d().read_only_boxed_clone(), |i, a, b| a + 3 * b + i as u64)),
+            "from3a" => Lz::F3a(LazyVecFrom3::init("l", Version::ONE, src[0].u().read_only_boxed_clone(), src[1].d().read_only_boxed_clone(), src[2].u().read_only_boxed_clone(), |i, a, b, c| a + 3 * b + 5 * c + i as u64)),
+            "from3b" => Lz::F3b(LazyVecFrom3::init("l", Version::ONE, src[0].u().read_only_boxed_clone(), src[1].u().read_only_boxed_clone(), src[2].d().read_only_boxed_clone(), |i, a, b, c| a + 3 * b + 5 * c + i as u64)),
+            "from3c" => Lz::F3c(LazyVecFrom3::init("l", Version::ONE, src[0].d().read_only_boxed_clone(), src[1].u().read_only_boxed_clone(), src[2].u().read_only_boxed_clone(), |i, a, b, c| a + 3 * b + 5 * c + i as u64)),
+            "delta" => Lz::Delta(LazyDeltaVec::new("l", Version::ONE, src[0].u().read_only_boxed_clone(), Version::ONE, move || m2.read().unwrap().clone())),
+            "agg" => Lz::Agg(LazyAggVec::new("l", Version::ONE, Version::ONE, src[0].u().read_only_boxed_clone(), move || m2.read().unwrap().clone())),
+            _ => Lz::F1(LazyVecFrom1::init("l", Version::ONE, src[0].u().read_only_boxed_clone(), |i, a| a * 2 + i as u64)),
         };
         Case { _dir: dir, _db: db, kind: kind.into(), vals: vec![vec![]; n], src, src32, mapping, lz }
     }
@@ -74,11 +117,8 @@ impl Case {
             self.vals[k] = v;
             return;
         }
-        let s = &mut self.src[k];
         let keep = self.vals[k].iter().zip(v.iter()).take_while(|(a, b)| a == b).count();
-        s.truncate_if_needed_at(keep).unwrap();
-        for x in &v[keep..] { s.push(*x); }
-        s.write().unwrap();
+        self.src[k].rewrite(keep, &v[keep..]);
         self.vals[k] = v;
     }
 
@@ -106,8 +146,10 @@ impl Case {
                 if next == 0 || m[i] >= next { Some(None) } else { Some(s.get(next - 1).copied()) }
             }
             _ => {
-                let len = self.vals.iter().map(|v| v.len()).min().unwrap_or(0);
+                // the governing sources (own index type) give the length; the generator keeps the others at least as long
+                let len = (0..self.vals.len()).filter(|k| !foreign_of(&self.kind).contains(k)).map(|k| self.vals[k].len()).min().unwrap_or(0);
                 if i >= len { return None; }
+                if self.vals.iter().any(|v| i >= v.len()) { return None; }
                 let g = |k: usize| self.vals[k][i];
                 Some(Some(match self.vals.len() { 1 => g(0) * 2 + i as u64, 2 => g(0) + 3 * g(1) + i as u64, _ => g(0) + 3 * g(1) + 5 * g(2) + i as u64 }))
             }
@@ -148,7 +190,13 @@ impl Case {
             "src" => { self.set_src(ws[1].parse().unwrap(), list(ws[2])); "ok".to_string() }
             "map" => { *self.mapping.write().unwrap() = Arc::from(list(ws[1]).into_iter().map(|x| x as usize).collect::<Vec<_>>()); "ok".into() }
             "len" => {
-                let n = match &self.lz { Lz::F1(v) => v.len(), Lz::F2(v) => v.len(), Lz::F3(v) => v.len(), Lz::Delta(v) => v.len(), Lz::Chg(v) => v.len(), Lz::Agg(v) => v.len() };
+                let n = match &self.lz { Lz::F1(v) => v.len(), Lz::F2(v) => v.len(), Lz::F3(v) => v.len(), Lz::F2m(v) => v.len(), Lz::F3a(v) => v.len(), Lz::F3b(v) => v.len(), Lz::F3c(v) => v.len(),
+                    Lz::Delta(v) => v.len(), Lz::Chg(v) => v.len(), Lz::Agg(v) => v.len() };
+                // oracle: the length is given by the governing sources (those keyed by the vector's own index type)
+                if !matches!(self.kind.as_str(), "delta" | "chg" | "agg") {
+                    let want = (0..self.vals.len()).filter(|k| !foreign_of(&self.kind).contains(k)).map(|k| self.vals[k].len()).min().unwrap_or(0);
+                    if n != want { fails.push(format!("C15: len() = {n} but the governing sources give {want}")); }
+                }
                 format!("ok {n}")
             }
             "range" => {
@@ -158,6 +206,10 @@ impl Case {
                         Lz::F1(v) => nats(&Self::all_range_paths(v, a, b)?),
                         Lz::F2(v) => nats(&Self::all_range_paths(v, a, b)?),
                         Lz::F3(v) => nats(&Self::all_range_paths(v, a, b)?),
+                        Lz::F2m(v) => nats(&Self::all_range_paths(v, a, b)?),
+                        Lz::F3a(v) => nats(&Self::all_range_paths(v, a, b)?),
+                        Lz::F3b(v) => nats(&Self::all_range_paths(v, a, b)?),
+                        Lz::F3c(v) => nats(&Self::all_range_paths(v, a, b)?),
                         Lz::Delta(v) => nats(&Self::all_range_paths(v, a, b)?),
                         Lz::Chg(v) => nats(&Self::all_range_paths(v, a, b)?.into_iter().map(|x| x as u64).collect::<Vec<_>>()),
                         Lz::Agg(v) => opts(&Self::all_range_paths(v, a, b)?),
@@ -179,6 +231,7 @@ impl Case {
                 let i: usize = ws[1].parse().unwrap();
                 let r = catch_unwind(AssertUnwindSafe(|| match &self.lz {
                     Lz::F1(v) => v.collect_one_at(i).map(Some), Lz::F2(v) => v.collect_one_at(i).map(Some), Lz::F3(v) => v.collect_one_at(i).map(Some),
+                    Lz::F2m(v) => v.collect_one_at(i).map(Some), Lz::F3a(v) => v.collect_one_at(i).map(Some), Lz::F3b(v) => v.collect_one_at(i).map(Some), Lz::F3c(v) => v.collect_one_at(i).map(Some),
                     Lz::Delta(v) => v.collect_one_at(i).map(Some), Lz::Chg(v) => v.collect_one_at(i).map(|x| Some(x as u64)), Lz::Agg(v) => v.collect_one_at(i),
                 }));
                 match r {
@@ -198,6 +251,7 @@ impl Case {
                 let idx: Vec<usize> = list(ws[1]).into_iter().map(|x| x as usize).collect();
                 let r = catch_unwind(AssertUnwindSafe(|| match &self.lz {
                     Lz::F1(v) => Some(v.read_sorted_at(&idx)), Lz::F2(v) => Some(v.read_sorted_at(&idx)), Lz::F3(v) => Some(v.read_sorted_at(&idx)),
+                    Lz::F2m(v) => Some(v.read_sorted_at(&idx)), Lz::F3a(v) => Some(v.read_sorted_at(&idx)), Lz::F3b(v) => Some(v.read_sorted_at(&idx)), Lz::F3c(v) => Some(v.read_sorted_at(&idx)),
                     Lz::Delta(v) => Some(v.read_sorted_at(&idx)), Lz::Chg(v) => Some(v.read_sorted_at(&idx).into_iter().map(|x| x as u64).collect()), Lz::Agg(_) => None,
                 }));
                 match r {
@@ -220,8 +274,9 @@ impl Case {
 fn gen_case(seed: u64, c: u64, len: u64, open: bool) -> Vec<String> {
     let mut r = Rng::new(seed.wrapping_mul(1_000_003).wrapping_add(c).wrapping_mul(13));
     // the change operator only in the clean stream (a window that starts after its index is outside its domain: `h - start`)
-    let kind = if open { ["from1", "from2", "from3", "delta", "agg"][(c % 5) as usize] } else { ["from1", "from2", "from3", "delta", "agg", "chg"][(c % 6) as usize] };
-    let nsrc = match kind { "from2" => 2, "from3" => 3, _ => 1 };
+    let kind = if open { ["from1", "from2", "from3", "delta", "agg"][(c % 5) as usize] }
+        else { ["from1", "from2", "from3", "delta", "agg", "chg", "from2m", "from3a", "from3b", "from3c"][(c % 10) as usize] };
+    let nsrc = nsrc_of(kind);
     let mut lines = vec![format!("case {c} kind={kind}")];
     let mut vals: Vec<Vec<u64>> = vec![vec![]; nsrc];
     let mut maplen = 0usize;
@@ -239,6 +294,15 @@ fn gen_case(seed: u64, c: u64, len: u64, open: bool) -> Vec<String> {
                 vals[k].push(if kind == "delta" || kind == "chg" { prev + r.below(9) } else { r.below(100) });
             }
             lines.push(format!("src {k} {}", fmt(&vals[k])));
+            // mixed index types: a source keyed by the foreign type does not govern; it is kept at least as long as the others
+            for &f in foreign_of(kind) {
+                let need = (0..nsrc).filter(|g| !foreign_of(kind).contains(g)).map(|g| vals[g].len()).max().unwrap_or(0);
+                if vals[f].len() < need {
+                    while vals[f].len() < need + r.below(3) as usize { vals[f].push(r.below(100)); }
+                    while vals[f].len() < need { vals[f].push(r.below(100)); }
+                    lines.push(format!("src {f} {}", fmt(&vals[f])));
+                }
+            }
             // clean stream: the mapping is rebuilt for the new source length before the next read
             if !open { maplen = 0; }
             continue;
